@@ -111,9 +111,11 @@ def run_path(nodes, path, init):
             o = s["obs"]
             exp = (o["op"], o["req"] if o["op"] == "read" else -1)
             if k >= len(stream.requests):
+                if outcome[0] == "exhausted":
+                    return (i + 1 + k, {"request": exp}, {"request": None, "outcome": outcome[0]}, "pattern")
                 return (i + 1 + k, {"request": exp}, {"request": None, "outcome": outcome[0]})
             if stream.requests[k] != exp:
-                return (i + 1 + k, {"request": exp}, {"request": stream.requests[k]})
+                return (i + 1 + k, {"request": exp}, {"request": stream.requests[k]}, "pattern")
         if not steps:
             return (i, "at least one request in a call", "none")
         last = steps[-1]["obs"]
@@ -200,6 +202,7 @@ def replay_graph(rep, budget, bundle=None, maxpay=1, optset="OptCore"):
     done = set()
     npaths = nsteps = 0
     bad = 0
+    pattern_dev = 0
     for e in edges:
         if e in done or e[0] not in parent:
             continue
@@ -214,6 +217,12 @@ def replay_graph(rep, budget, bundle=None, maxpay=1, optset="OptCore"):
         init = root[e[0]]
         mism = run_path(nodes, path, init)
         rep.case(digest([init] + [x[1] for x in path]))
+        if mism is not None and len(mism) == 4:
+            # the reader asked for another number of bytes than the specification: a different READ
+            # PATTERN, not by itself a violation of a listed property (the path's scripted answers no
+            # longer line up, so the path is not judged; outputs are judged by FramerOut on the traces)
+            pattern_dev += 1
+            continue
         if mism is not None and bad < 25:
             bad += 1
             k, exp, obs = mism
@@ -225,7 +234,7 @@ def replay_graph(rep, budget, bundle=None, maxpay=1, optset="OptCore"):
                         "script": answers, "step": k, "expected": exp, "observed": obs})
     rep.count("traces_validated_against_impl", npaths)
     rep.notes["graph_replay"] = {"budget": budget, "states": len(nodes), "edges": len(edges), "paths": npaths, "steps": nsteps,
-                                 "edges_covered": len(done)}
+                                 "edges_covered": len(done), "paths_not_judged_read_pattern": pattern_dev}
     if len(done) < len([e for e in edges if e[0] in parent]):
         raise MachineryFailure("graph replay did not cover every edge")
     return npaths
